@@ -1,5 +1,5 @@
 """C11 — exactly the needed files are on disk: nothing live deleted, nothing dead kept."""
-from gen import lib, dbh, crash, proto
+from gen import lib, dbh, crash, proto, fault
 
 PROP_FILE = "props/C11.v"
 WANT = ("dir",)
@@ -12,7 +12,9 @@ RULE = ("dbhist: histories with flushes, automatic and manual compactions, trivi
         "and, after quiescence and again after a clean reopen, the same exactness is required. "
         "proto: after every operation the set of files in the directory (and their contents) must be "
         "exactly what the extracted protocol model derives, garbage collection included. "
-        "Non-trivial: a history that creates at least one table file; distinct by sha1.")
+        "fault: a file-system call fails (every class, sampled positions, transient and sticky); after "
+        "the fault is gone the database must reopen, i.e. no file recovery needs was removed by an "
+        "error path. Non-trivial: a history that creates at least one table file; distinct by sha1.")
 TRUSTED = ["directory listing of SimFs; current version and file numbers from the DB::verif_dump hook"]
 ASSUMPTIONS = ["reader-vs-deletion interleavings are covered at sched-point granularity by the C05 machinery, not here"]
 
@@ -37,12 +39,16 @@ def gen_proto(tier, rng):
 def suites(tier, seed, rng):
     return [dbh.DbSuite(dbh.corpus("C11") + gen_cases(tier, rng)),
             crash.CrashSuite(gen_crash(tier, rng), WANT),
-            proto.ProtoSuite(gen_proto(tier, rng))]
+            proto.ProtoSuite(gen_proto(tier, rng)),
+            fault.FaultSuite(["%s # %d" % (" ".join(fault.gen_history(rng, "f%d" % i, rng.choice([12, 20]))), 2 if tier == "quick" else 20)
+                              for i in range(3 if tier == "quick" else 60)])]
 
 
 def replay_suites(rp):
     if rp.get("suite") == "proto":
         return [proto.ProtoSuite([rp["case"]])]
+    if rp.get("suite") == "fault":
+        return [fault.FaultSuite([rp["case"]])]
     if rp.get("suite") == "crash":
         return [crash.CrashSuite([rp["case"]], WANT)]
     return [dbh.DbSuite([rp["case"]])]
